@@ -100,4 +100,63 @@ theorem pruneWith_no_match (p : Profile) (q : Str → Bool)
     conv => rhs; rw [← List.map_id p.samples]
     exact List.map_congr_left (fun s _ => by simpa using hs s)
   rw [e1, e2]
+/-! ### PruneFrom -/
+
+theorem fromFirst_suffix {α} (q : α → Bool) (L s : List α) (h : fromFirst q L = some s) : s <:+ L := by
+  induction L with
+  | nil => simp [fromFirst] at h
+  | cons a r ih =>
+    unfold fromFirst at h
+    split at h
+    · cases h; exact List.suffix_refl _
+    · exact List.suffix_cons_iff.mpr (Or.inr (ih h))
+
+theorem fromFirst_none_of {α} (q : α → Bool) (L : List α) (h : ∀ x ∈ L, q x = false) : fromFirst q L = none := by
+  induction L with
+  | nil => rfl
+  | cons a r ih =>
+    simp [fromFirst, h a List.mem_cons_self, ih (fun x hx => h x (List.mem_cons_of_mem _ hx))]
+
+theorem pruneFromSample_suffix (p : Profile) (q : Str → Bool) (s : Sample) :
+    (pruneFromSample p q s).locationIDs <:+ s.locationIDs := by
+  unfold pruneFromSample
+  split
+  · rename_i ids h; exact fromFirst_suffix _ _ _ h
+  · exact List.suffix_refl _
+
+theorem pruneFromLoc_suffix (p : Profile) (q : Str → Bool) (l : Location) :
+    (pruneFromLoc p q l).1.lines <:+ l.lines := by
+  unfold pruneFromLoc
+  split
+  · rename_i ls h; exact fromFirst_suffix _ _ _ h
+  · exact List.suffix_refl _
+
+theorem pruneFromWith_no_match (p : Profile) (q : Str → Bool)
+    (h : ∀ l ∈ p.locations, ∀ ln ∈ l.lines, lineMatches p q ln = false) : pruneFromWith p q = p := by
+  have hloc : ∀ l ∈ p.locations, pruneFromLoc p q l = (l, false) := by
+    intro l hl
+    unfold pruneFromLoc
+    rw [fromFirst_none_of _ _ (h l hl)]
+  have hid : ∀ id, pruneFromId p q id = false := by
+    intro id
+    unfold pruneFromId
+    split
+    · rename_i l hl
+      have hm : l ∈ p.locations := by
+        unfold Profile.findLocation at hl
+        exact List.mem_of_find?_eq_some hl
+      rw [hloc l hm]
+    · rfl
+  have hs : ∀ s, pruneFromSample p q s = s := by
+    intro s
+    unfold pruneFromSample
+    rw [fromFirst_none_of _ _ (fun x _ => hid x)]
+  unfold pruneFromWith
+  have e1 : p.locations.map (fun l => (pruneFromLoc p q l).1) = p.locations := by
+    conv => rhs; rw [← List.map_id p.locations]
+    exact List.map_congr_left (fun l hl => by simp [hloc l hl])
+  have e2 : p.samples.map (pruneFromSample p q) = p.samples := by
+    conv => rhs; rw [← List.map_id p.samples]
+    exact List.map_congr_left (fun s _ => by simpa using hs s)
+  rw [e1, e2]
 end PV.Prune
